@@ -98,7 +98,61 @@ def check_text(text):
         s2 = str(b)
         if s2 != s:
             out.append(("second-serialisation-differs", "%r vs %r" % (s, s2)))
+        else:
+            out.extend(assembled(text, a))
     return "accepted", out
+
+
+def _round_trip(cfg, label):
+    want = conv(cfg)
+    try:
+        s = str(cfg)
+        back = conv(load(s))
+    except Exception as e:  # noqa
+        return [("%s:reload-fails" % label, "%r" % (e,))]
+    if back != want:
+        return [("%s:reload-differs" % label, "str() = %r ; held %r ; reload %r" % (s, want, back))]
+    return []
+
+
+def assembled(text, a):
+    """"Inspecting and modifying it, and re-serializing the result": the loaded configuration --
+    which has been serialised once already -- is changed through its documented interface, and
+    assembled further from fragments with the module's own building blocks; what it holds then
+    must survive str() and a reload like any loaded configuration."""
+    ZConfig = _mods()
+    out = []
+    # (1) values appended to an existing key, a new key, a new section
+    secs = [a]
+    for sec in secs:
+        secs.extend(sec.sections)
+    for sec in secs:
+        if len(sec):
+            sec[sorted(sec)[0]].append("zcv appended")
+            break
+    a["zcv-new-key"] = ["v1", "v 2"]
+    new = ZConfig.schemaless.Section("zcvtype", "zcvname")
+    new["k"] = ["v"]
+    a.sections.insert(0, new)
+    out.extend(_round_trip(a, "modified-after-str"))
+    if out:
+        return out
+    # (2) the same text parsed once more into the existing tree, and into one of its sections
+    for target in [a] + a.sections[1:2]:
+        ctx = ZConfig.schemaless.Context()
+        ctx.top = a
+        try:
+            ZConfig.schemaless.Parser(ZConfig.schemaless.Resource(io.StringIO(text), URL), ctx).parse(target)
+        except Exception as e:  # noqa
+            out.append(("fragment-parsed-into-a-loaded-configuration:raises:%s" % type(e).__name__, repr(e)[:200]))
+            return out
+        if len(set(a.imports)) != len(a.imports):
+            out.append(("fragment-parsed-into-a-loaded-configuration:duplicate-imports", repr(a.imports)))
+            return out
+        out.extend(_round_trip(a, "fragment-parsed-into-a-loaded-configuration"))
+        if out:
+            return out
+    return out
 
 
 def _directive_in_valid_text(text):
